@@ -327,13 +327,17 @@ def run(ctx):
     def runchunk(chunk):
         p = _sp.Popen([_sys.executable, _os.path.join(VERIF, 'vlib', 'pumprun.py'), REPO], stdin=_sp.PIPE, stdout=_sp.PIPE,
                       stderr=_sp.DEVNULL, text=True)
+        import signal as _signal
         try:
-            out, _ = p.communicate(_json.dumps(chunk), timeout=max(30.0, 12 * budget))
-            killed = False
+            out, _ = p.communicate(_json.dumps(chunk), timeout=max(600.0, 200 * budget))
+            # the child limits the CPU time of every single measurement itself (RLIMIT_CPU): SIGXCPU = a measurement overran
+            killed = p.returncode == -_signal.SIGXCPU
         except _sp.TimeoutExpired:
+            # wall clock only (a loaded machine): says nothing about the regular expressions - not explored, no alarm
             p.kill()
             out, _ = p.communicate()
-            killed = True
+            killed = False
+            ctx.notes.append('pump chunk of rule %d cut by the wall-clock limit: remaining sizes not explored' % chunk[0]['rule'])
         return [_json.loads(l[2:]) for l in out.splitlines() if l.startswith('@@')], killed
     by_rule = {}
     for jb in jobs:
